@@ -2,6 +2,7 @@ package layout
 
 import (
 	"fmt"
+	"sort"
 	"strings"
 
 	pr "github.com/benoitkugler/webrender/css/properties"
@@ -722,7 +723,13 @@ func (context *layoutContext) makePage(rootBox bo.BlockLevelBoxITF, pageType uti
 		contextOutOfFlow = context.brokenOutOfFlow
 	)
 	context.brokenOutOfFlow = make(map[Box]brokenBox) // new map
+	// lay out the continuations in the order in which the boxes were broken (not in map order)
+	pending := make([]brokenBox, 0, len(contextOutOfFlow))
 	for _, v := range contextOutOfFlow {
+		pending = append(pending, v)
+	}
+	sort.Slice(pending, func(i, j int) bool { return pending[i].order < pending[j].order })
+	for _, v := range pending {
 		box, containingBlock := v.box, v.containingBlock
 		box.Box().PositionY = rootBox.Box().ContentBoxY()
 
@@ -742,7 +749,7 @@ func (context *layoutContext) makePage(rootBox bo.BlockLevelBoxITF, pageType uti
 		}
 		outOfFlowBoxes = append(outOfFlowBoxes, outOfFlowBox)
 		if outOfFlowResumeAt != nil {
-			context.brokenOutOfFlow[outOfFlowBox] = brokenBox{box, containingBlock, outOfFlowResumeAt}
+			context.brokenOutOfFlow[outOfFlowBox] = context.newBrokenBox(box, containingBlock, outOfFlowResumeAt)
 		}
 	}
 
